@@ -27,7 +27,7 @@ RULE = ("one generator call per case; every public generator of mouette.procedur
         "non-trivial = unequal resolutions or at least one non-default switch/parameter; distinct = distinct (generator, parameters) hash")
 REQUIRED = {"call": 800, "valid": 3000, "shape": 500, "counts": 700, "geometry": 500, "switch": 1000, "apex": 150,
             "dual": 150, "polyline": 100, "volume": 15, "raises": 10}
-CASE_TIMEOUT = {"quick": 60.0, "thorough": 300.0}
+CASE_TIMEOUT = {"quick": 30.0, "thorough": 300.0}
 ASSUMPTIONS = [
     "admissible = documented minimum where the docstring gives one (ring N>=3), otherwise the smallest resolution for which the named shape "
     "exists as a polyhedral surface: cylinder N>=3, torus segments>=3, sphere_uv n_lat>=2 and n_long>=3, unit_grid/unit_triangle nu,nv>=2, "
